@@ -107,6 +107,10 @@ Proof. exact v3_random_key_is_accepted. Qed.
 Theorem C16_v3_generation_fails_closed : forall O R i fuel j,
   v3_random O R i fuel = (GenRngFailed, j) -> i < j /\ R (j - 1) 48 = None.
 Proof. exact v3_random_fail_closed. Qed.
+Theorem C16_v3_generation_failure_gives_no_key : forall O R fuel i n,
+  (forall m x, i <= m < n -> R m 48 = Some x -> p384_pk O x = None) -> (forall m, i <= m < n -> R m 48 <> None) ->
+  i <= n -> R n 48 = None -> n - i < fuel -> v3_random O R i fuel = (GenRngFailed, S n).
+Proof. exact v3_random_failure_gives_no_key. Qed.
 Theorem C16_v3_generation_skips_only_invalid_scalars : forall O R i fuel out j n x,
   v3_random O R i fuel = (out, j) -> i <= n -> S n < j -> R n 48 = Some x -> p384_pk O x = None.
 Proof. exact v3_random_skips_only_invalid. Qed.
@@ -114,6 +118,7 @@ Proof. exact v3_random_skips_only_invalid. Qed.
 Print Assumptions C16_v3_generated_key_is_a_draw.
 Print Assumptions C16_v3_generated_key_is_accepted.
 Print Assumptions C16_v3_generation_fails_closed.
+Print Assumptions C16_v3_generation_failure_gives_no_key.
 Print Assumptions C16_v3_generation_skips_only_invalid_scalars.
 Print Assumptions C16_local_seal_op_fail_closed.
 Print Assumptions C16_local_seal_op_embeds.
